@@ -1081,6 +1081,16 @@ Proof.
   intros b bc W H. destruct (compile_certifies_explicit b bc W H) as (C & _ & _ & X). exists (cert_of C). exact X.
 Qed.
 
+(* every source text the front end accepts *)
+Theorem front_certifies : forall u orc src bc, front u orc src = Ok bc ->
+  exists c, check (mkProgram (b_code bc) (fst (load_consts (b_constants bc) empty_heap))) c = true.
+Proof.
+  intros u orc src bc H. unfold front in H.
+  destruct (parse u (parse_float orc) src) as [ast| | |] eqn:Ep; cbn [bind] in H; try discriminate H.
+  unfold parse, parse_tokens in Ep.
+  exact (compile_certifies ast bc (PrinterProofs.wf_complete (parse_float orc) _ _ ast Ep) H).
+Qed.
+
 (* Non-vacuity: the hypotheses hold for the example program of CompilerTotal.v (nested loops with stop /
    volgende, if / else-if / else, a function with two parameters, a float literal), so it has a
    certificate; and the certificate built here (one entry per instruction, unreachable code included) is
@@ -1101,12 +1111,7 @@ Module CCExamples.
   Example ex_dead_code_certified : forall bc,
     front u0 orc_some (str_cps "functie f(a) { antwoord a; a + 1 } zolang ja { stel x = [1, als ja { stop; 2 }]; } f(1)") = Ok bc ->
     exists c, check (mkProgram (b_code bc) (fst (load_consts (b_constants bc) empty_heap))) c = true.
-  Proof.
-    intros bc H. unfold front in H.
-    destruct (parse u0 (parse_float orc_some) _) as [ast| | |] eqn:Ep; cbn [bind] in H; try discriminate H.
-    unfold parse, parse_tokens in Ep.
-    exact (compile_certifies ast bc (PrinterProofs.wf_complete (parse_float orc_some) _ _ ast Ep) H).
-  Qed.
+  Proof. intros bc. apply front_certifies. Qed.
   Example ex_dead_code_accepted :
     match front u0 orc_some (str_cps "functie f(a) { antwoord a; a + 1 } zolang ja { stel x = [1, als ja { stop; 2 }]; } f(1)") with
     | Ok _ => true | _ => false end = true.
@@ -1116,3 +1121,4 @@ End CCExamples.
 Print Assumptions compile_typed.
 Print Assumptions compile_certifies_explicit.
 Print Assumptions compile_certifies.
+Print Assumptions front_certifies.
